@@ -12,6 +12,8 @@
 //        the acts of every matching rule in order:  u<j> = timer j .unplan()
 //                                                   p<j>.<start>.<iv> = manager.plan(timer j, start, iv)
 //   q <now>                   only query the observables at time now
+//   qmin <now>                minimal_interval(now) called unconditionally (normal stream: only when
+//                             a timer is planned; on an empty manager: @F:C16-minimal-interval-empty)
 //   reset s / sinit a b / splan a b / sstart a / sswift / sfinish / scheck t / speriodic t   (stimer)
 //
 // result  = "f=<id>:<deadline>,... t=<finish>/<is_planned>,... e=<empty> m=<minimal_interval|->"
@@ -27,8 +29,20 @@
 #include <memory>
 #include <algorithm>
 
-using hv::out;
 typedef int64_t i64;
+// view of hv::out whose tag() records each marker once per op line
+struct out
+{
+    hv::out &b;
+    std::string &result;
+    explicit out(hv::out &x) : b(x), result(x.result) {}
+    void fail(const std::string &why) { b.fail(why); }
+    void tag(const char *t)
+    {
+        std::string x = "," + b.tags + ",";
+        if (x.find("," + std::string(t) + ",") == std::string::npos) b.tag(t);
+    }
+};
 
 static_assert(sizeof(long) == 8, "LP64 assumed by the stimer model");
 static_assert(std::is_same<igris::timer_spec<int64_t>::difftime_t, int64_t>::value, "difftime_t is int64_t");
@@ -136,6 +150,7 @@ struct world
     i64 prev_deadline = 0;
     out *o = nullptr;
     bool in_exec = false;
+    bool fires_seen = false; // an exec has happened in this case
 };
 static world W;
 
@@ -201,6 +216,7 @@ static void drop_world()
     W.mgr = nullptr;
     W.ref = refsched();
     W.cur = 0;
+    W.fires_seen = false;
 }
 
 static std::string summary(out &o)
@@ -241,8 +257,9 @@ static std::string show_st()
     return std::to_string(ST.start) + " " + std::to_string(ST.interval) + " " + std::to_string(ST.planed);
 }
 
-static void run_op(const std::vector<std::string> &w, const std::string &, out &o)
+static void run_op(const std::vector<std::string> &w, const std::string &, hv::out &o_)
 {
+    out o(o_);
     world &W_ = W;
     const std::string &op = w[0];
     auto I = [&](size_t k) { return (i64)strtoll(w[k].c_str(), 0, 10); };
@@ -290,6 +307,19 @@ static void run_op(const std::vector<std::string> &w, const std::string &, out &
         o.result = summary(o);
         return;
     }
+    if (op == "qmin")
+    {
+        // minimal_interval() called unconditionally (finding C16-minimal-interval-empty: on an
+        // empty manager the code reads start/interval through the list head; ASan aborts here)
+        W_.cur = I(1);
+        bool e = W_.mgr->empty();
+        i64 m = W_.mgr->minimal_interval(W_.cur);
+        o.result = e ? "fault" : std::to_string(m);
+        if (e) o.fail("minimal_interval() on an empty manager returned " + std::to_string(m) + " (no next deadline exists)");
+        else if (m != W_.ref.earliest() - W_.cur) o.fail("minimal_interval differs from the reference's time to the next deadline");
+        o.tag(e ? "qmin-empty" : "qmin");
+        return;
+    }
     if (op == "q")
     {
         W_.cur = I(1);
@@ -299,7 +329,8 @@ static void run_op(const std::vector<std::string> &w, const std::string &, out &
     if (op == "exec")
     {
         i64 now = I(1);
-        if (now < W_.cur) o.tag("time-backwards");
+        if (W_.fires_seen && now == W_.now) o.tag("exec-same-time");
+        W_.fires_seen = true;
         W_.now = now;
         W_.cur = now;
         W_.rules = parse_rules(w[2]);
@@ -449,6 +480,14 @@ static void gen_directed()
     emit("exec 1000000000006 -");
     emit("exec 1000000000007 -");
     emit("exec 1000000000700 1@99:u1");
+    emit("qmin 1000000000700");
+    // recorded finding: minimal_interval() on an empty manager (each probe ends its case: ASan abort)
+    emit("reset 1");
+    emit("@F:C16-minimal-interval-empty qmin 5");
+    emit("reset 2");
+    emit("plan 0 1 1");
+    emit("unplan 0");
+    emit("@F:C16-minimal-interval-empty qmin 0");
 }
 
 static std::string gen_rules(hv::rng &r, int n, i64 now, const std::vector<i64> &ivs)
@@ -609,19 +648,27 @@ static void gen_stimer(hv::rng &r, int cases)
     {
         emit("reset s");
         i64 now = r.pick(vals);
+        i64 st = 0, ivl = 0; // what the generator believes the timer holds (only to aim at the boundary)
         int len = (int)r.range(4, 14);
         for (int q = 0; q < len; q++)
         {
             unsigned m = (unsigned)r.below(100);
             i64 iv = r.pick(vals);
             if (iv <= 0) iv = 1 + (i64)r.below(9);
-            if (m < 15) emit("splan " + S(now + r.range(-3, 3)) + " " + S(iv));
-            else if (m < 22) emit("sinit " + S(now + r.range(-3, 3)) + " " + S(iv));
-            else if (m < 30) emit("sstart " + S(now + r.range(-3, 3)));
-            else if (m < 36) emit("sswift");
+            if (m < 15) { st = now + r.range(-3, 3); ivl = iv; emit("splan " + S(st) + " " + S(iv)); }
+            else if (m < 22) { st = now + r.range(-3, 3); ivl = iv; emit("sinit " + S(st) + " " + S(iv)); }
+            else if (m < 30) { st = now + r.range(-3, 3); emit("sstart " + S(st)); }
+            else if (m < 36) { st += ivl; emit("sswift"); }
             else if (m < 44) emit("sfinish");
-            else if (m < 70) { now += r.range(0, 4); emit("scheck " + S(now)); }
-            else { now += r.range(0, 4) * (r.chance(20) ? 5 : 1); emit("speriodic " + S(now)); }
+            else
+            {
+                // half of the polls aim at deadline-1 / deadline / deadline+1 (time stays non-decreasing)
+                i64 t = now + r.range(0, 4) * (r.chance(20) ? 5 : 1);
+                if (r.chance(50) && st + ivl + 1 >= now) t = std::max(now, st + ivl + r.range(-1, 1));
+                now = t;
+                if (m < 70) emit("scheck " + S(now));
+                else { emit("speriodic " + S(now)); if (now >= st + ivl) st += ivl; }
+            }
         }
     }
 }
@@ -632,9 +679,9 @@ static void gen(hv::rng &r, const std::string &tier)
     gen_directed();
     gen_exhaustive_configs(r, th);
     gen_exhaustive_callbacks(r, th);
-    int nrand = th ? 12000 : 2500;
+    int nrand = th ? 30000 : 5000;
     for (int c = 0; c < nrand; c++) gen_random_case(r, c % 3 != 0);
-    gen_stimer(r, th ? 4000 : 600);
+    gen_stimer(r, th ? 5000 : 1000);
 }
 
 int main(int argc, char **argv)
